@@ -13,8 +13,11 @@ from .values import (ContractOutOfDate, FuncV, GenV, OutsideSubset, PathEnd,
 
 
 class LoopAnnot(object):
-    def __init__(self, invariant, variant=None, types=None, keep=None,
-                 havoc_ghost=None, abstract=False, on_element=None):
+    def __init__(self, invariant=None, variant=None, types=None, keep=None,
+                 havoc_ghost=None, abstract=False, on_element=None,
+                 element=None, at_iteration_end=None):
+        if invariant is None:
+            invariant = lambda *a: []
         self.invariant = invariant
         self.variant = variant
         self.types = types
@@ -22,6 +25,8 @@ class LoopAnnot(object):
         self.havoc_ghost = havoc_ghost
         self.abstract = abstract
         self.on_element = on_element
+        self.element = element
+        self.at_iteration_end = at_iteration_end
         self.used = False
 
 
